@@ -164,6 +164,15 @@ func (w *writer) options(indent string, opts []Opt, owner string) {
 	}
 }
 
+func (w *writer) optionsWithComments(indent string, opts []Opt, owner string, comments map[string]string) {
+	for _, o := range opts {
+		sp := w.begin("option", owner+":"+o.Name, indent, comments[o.Name])
+		w.write("option " + o.Name + " = " + o.Value + ";")
+		w.end(sp)
+		w.write("\n")
+	}
+}
+
 func (w *writer) reserved(indent string, ranges []Range, names []string, owner string, edition bool) {
 	if len(ranges) > 0 {
 		var parts []string
@@ -343,7 +352,7 @@ func (s *Schema) RenderFile(f *File, spans map[string]*Span) string {
 		w.write("\n\n")
 	}
 	if f.Package != "" {
-		sp := w.begin("package", f.Path, "", "")
+		sp := w.begin("package", f.Path, "", f.PackageComment)
 		w.write("package ")
 		w.markName(sp)
 		w.write(f.Package + ";")
@@ -352,7 +361,7 @@ func (s *Schema) RenderFile(f *File, spans map[string]*Span) string {
 	}
 	imports := s.ImportsOf(f)
 	for _, im := range imports {
-		sp := w.begin("import", f.Path+":"+im.Path, "", "")
+		sp := w.begin("import", f.Path+":"+im.Path, "", f.ImportComments[im.Path])
 		mod := ""
 		if im.Public {
 			mod = "public "
@@ -369,7 +378,7 @@ func (s *Schema) RenderFile(f *File, spans map[string]*Span) string {
 	if len(f.Options) > 0 {
 		opts := append([]Opt{}, f.Options...)
 		sort.SliceStable(opts, func(i, j int) bool { return opts[i].Name < opts[j].Name })
-		w.options("", opts, f.Path)
+		w.optionsWithComments("", opts, f.Path, f.OptionComments)
 		w.write("\n")
 	}
 	scope := f.Package
